@@ -930,6 +930,41 @@ pub fn dropbomb(a: &Args, rep: &mut Report) {
     }
 }
 
+// ------------------------------------------------------------------------------------------
+// withcap (C10): with_capacity(n) for every n up to a bound: capacity() >= n and n insertions
+// without reallocation
+// ------------------------------------------------------------------------------------------
+
+pub fn withcap(a: &Args, rep: &mut Report) {
+    let sh = Shard::from_args(a);
+    let focus = static_prop(&rep.prop);
+    let max = a.u64("max", 1200);
+    for n in 0..=max {
+        if n % sh.count != sh.index {
+            continue;
+        }
+        let elem = if n % 3 == 0 { ElemKind::TrInline } else { ElemKind::U64 };
+        let cfg = Cfg { elem, bh: Bh::new(HMode::Good, n % 4), cap: usize::MAX, check_every: 512, cursor_every: 64, focus };
+        let out = match elem {
+            ElemKind::U64 => {
+                let mut s: Sess<u64, u64> = Sess::new(&cfg);
+                s.go(Op::n(Code::WithCapacity, n));
+                s.go(Op::new(Code::Probe));
+                s.finish()
+            }
+            _ => {
+                let mut s: Sess<Tr<false>, Tr<false>> = Sess::new(&cfg);
+                s.go(Op::n(Code::WithCapacity, n));
+                s.go(Op::new(Code::Probe));
+                s.finish()
+            }
+        };
+        let tag = format!("withcap-{}-{}", flavour(), n);
+        rep.record(&cfg, &tag, out, |s| s.max_len > 0);
+    }
+    rep.notes.insert("withcap".into(), format!("with_capacity(n) for every n in 0..={max} (this shard: 1/{})", sh.count));
+}
+
 pub fn noop(_a: &Args, rep: &mut Report) {
     rep.evaluations = 0;
 }
